@@ -782,20 +782,29 @@ func (lbc *LoadBalancerController) findVirtualServersUsingRatelimitScaling() []R
 
 func (lbc *LoadBalancerController) virtualServerRequiresEndpointsUpdate(vsEx *configs.VirtualServerEx, serviceName string) bool {
 	for _, upstream := range vsEx.VirtualServer.Spec.Upstreams {
-		if upstream.Service == serviceName && !upstream.UseClusterIP {
+		if upstreamRequiresEndpointsUpdate(upstream, serviceName) {
 			return true
 		}
 	}
 
 	for _, vsr := range vsEx.VirtualServerRoutes {
 		for _, upstream := range vsr.Spec.Upstreams {
-			if upstream.Service == serviceName && !upstream.UseClusterIP {
+			if upstreamRequiresEndpointsUpdate(upstream, serviceName) {
 				return true
 			}
 		}
 	}
 
 	return false
+}
+
+// upstreamRequiresEndpointsUpdate reports whether the endpoints of the service are written into the upstream:
+// as its servers (unless the upstream uses the cluster IP) or as its backup servers.
+func upstreamRequiresEndpointsUpdate(upstream conf_v1.Upstream, serviceName string) bool {
+	if upstream.Service == serviceName && !upstream.UseClusterIP {
+		return true
+	}
+	return upstream.Backup == serviceName
 }
 
 func (lbc *LoadBalancerController) ingressRequiresEndpointsUpdate(ingressEx *configs.IngressEx, serviceName string) bool {
